@@ -2,7 +2,9 @@ package props
 
 import (
 	"os"
+	"os/exec"
 	"path/filepath"
+	"regexp"
 	"strings"
 	"testing"
 
@@ -223,5 +225,82 @@ func TestC08(t *testing.T) {
 		return nil
 	})
 
+	c08Strace(h)
 	c08Docs(h)
+}
+
+// ---- strace arm (thorough tier): no file outside the project directory is opened ----
+
+// TestC08StraceChild is run by the strace arm under strace: it replays the
+// end-to-end name enumeration (without oracle) in the directory named by
+// VERIF_C08_STRACE_BASE.
+func TestC08StraceChild(t *testing.T) {
+	base := os.Getenv("VERIF_C08_STRACE_BASE")
+	if base == "" {
+		t.Skip("helper of the strace arm")
+	}
+	os.Setenv("VERIF_SCRATCH", base)
+	n := 0
+	eachIncludeName(4, func(int) bool { return true }, func(c c08Name) bool {
+		info := &vlib.Info{}
+		c08NameCheck(c, info)
+		n++
+		return true
+	})
+	t.Logf("ran %d names", n)
+}
+
+var straceCaseDirRe = regexp.MustCompile(`/c08/\d+/`)
+var straceOpenRe = regexp.MustCompile(`openat\(AT_FDCWD, "([^"]+)", ([A-Z_|]+)`)
+
+// c08Strace runs the child under strace and checks every read-only open of a
+// path below the scratch base: it must lie inside a project directory
+// (.../outer/proj/...).
+func c08Strace(h *vlib.H) {
+	if !h.Thorough() || h.Shard != 0 {
+		return
+	}
+	type straceCase struct{ Note string }
+	h.SlowCampaign("names-under-strace")
+	vlib.Enum(h, "names-under-strace", false, func(yield func(straceCase) bool) { yield(straceCase{"all names up to length 4 under strace -e trace=openat"}) },
+		func(c straceCase, info *vlib.Info) *vlib.Failure {
+			info.NonTrivial = true
+			info.Class("strace-arm")
+			base, err := os.MkdirTemp(vlib.ScratchBase(), "strace")
+			if err != nil {
+				return nil
+			}
+			defer os.RemoveAll(base)
+			logf := filepath.Join(base, "strace.log")
+			cmd := exec.Command("strace", "-f", "-e", "trace=openat", "-o", logf, os.Args[0], "-test.run", "^TestC08StraceChild$")
+			cmd.Env = append(os.Environ(), "VERIF_C08_STRACE_BASE="+base, "VERIF_OUT=", "VERIF_JOURNAL=", "VERIF_REPLAY=")
+			if out, err := cmd.CombinedOutput(); err != nil {
+				h.Note("strace arm could not run (%v): %s", err, trunc(string(out), 200))
+				info.Class("strace-unavailable")
+				return nil
+			}
+			b, _ := os.ReadFile(logf)
+			opens, inside := 0, 0
+			for _, m := range straceOpenRe.FindAllStringSubmatch(string(b), -1) {
+				path, flags := m[1], m[2]
+				if !strings.HasPrefix(path, base+"/") || strings.Contains(flags, "O_WRONLY") || strings.Contains(flags, "O_RDWR") || strings.Contains(flags, "O_CREAT") || strings.Contains(flags, "O_DIRECTORY") {
+					continue
+				}
+				if path == logf || !straceCaseDirRe.MatchString(path) {
+					continue // not inside a case directory (the harness lists the scratch directory itself)
+				}
+				opens++
+				if strings.Contains(path, "/outer/proj/") {
+					inside++
+					continue
+				}
+				return vlib.Failf("outside-file-opened", "a file outside the project directory was opened for reading: %s", strings.TrimPrefix(path, base))
+			}
+			info.Sample = map[string]any{"read_only_opens_below_scratch": opens, "inside_project_dirs": inside}
+			if opens == 0 {
+				h.Note("strace arm saw no opens (strace output format?)")
+				info.Class("strace-unavailable")
+			}
+			return nil
+		})
 }
